@@ -100,6 +100,12 @@ func parseID(v any) (int, bool) {
 	return n, err == nil
 }
 
+type activeCall struct {
+	name string
+	op   string
+	id   int
+}
+
 type callRes struct {
 	ok  bool
 	t   string
@@ -215,24 +221,23 @@ func drive(env *fw.Env, b fw.Behaviour) *fw.Trace {
 	t.Events = append(t.Events, fw.Event{"ev": "Cfg", "cat": beh.Cat, "mode": beh.Mode})
 	wd := r.s.Watchdog
 	nid := 0
-	type active struct {
-		name string
-		op   string
-		id   int
-	}
-	cur := map[string]*active{}
+	cur := map[string]*activeCall{}
 	nCalls := map[string]int{}
 	nwb := 0
-	var started []*active
+	var started []*activeCall
 	finished := map[string]bool{}
-	logRet := func(p string, a *active) {
+	logRet := func(p string, a *activeCall) {
 		res, _ := r.s.Result(a.name).(callRes)
 		t.Events = append(t.Events, fw.Event{"ev": "Ret", "p": p, "op": a.op, "id": a.id, "ok": res.ok, "t": res.t, "v": res.v, "probe": false, "err": res.err})
 		finished[a.name] = true
 	}
+	finish := func(status, note string) *fw.Trace {
+		return finishScheduled(r, beh, t, started, finished, logRet, status, note)
+	}
 	unreal := func(note string) *fw.Trace {
-		r.s.Drain(3 * time.Second)
-		return &fw.Trace{Status: fw.Unrealisable, Note: note}
+		// the real code left the model's schedule: let everything finish free-running and still hand
+		// the observable trace to the judge (status diverged)
+		return finish(fw.Diverged, note)
 	}
 	for i, st := range beh.Steps {
 		if strings.HasPrefix(st.A, "Call") {
@@ -243,7 +248,7 @@ func drive(env *fw.Env, b fw.Behaviour) *fw.Trace {
 				id = nid
 			}
 			nCalls[st.P]++
-			a := &active{name: fmt.Sprintf("%s.%d", st.P, nCalls[st.P]), op: op, id: id}
+			a := &activeCall{name: fmt.Sprintf("%s.%d", st.P, nCalls[st.P]), op: op, id: id}
 			cur[st.P] = a
 			started = append(started, a)
 			t.Events = append(t.Events, fw.Event{"ev": "Call", "p": st.P, "op": op, "id": id})
@@ -315,10 +320,19 @@ func drive(env *fw.Env, b fw.Behaviour) *fw.Trace {
 			time.Sleep(300 * time.Microsecond)
 		}
 	}
+	return finish(fw.Realised, "")
+}
+
+// (continued) the tail of a gate-scheduled behaviour, shared by the realised and the diverged case
+func finishScheduled(r *rig, beh behaviour, t *fw.Trace, started []*activeCall, finished map[string]bool, logRet func(string, *activeCall), status, note string) *fw.Trace {
 	// finish everything in free-running mode, then observe the quiescent state
 	if !r.s.Drain(3 * time.Second) {
+		if status == fw.Diverged {
+			return &fw.Trace{Status: fw.Unrealisable, Note: note + " (and the processes did not finish after drain)"}
+		}
 		return &fw.Trace{Status: fw.DriverError, Note: "processes did not finish after drain"}
 	}
+	t.Status, t.Note = status, note
 	for _, a := range started {
 		if !finished[a.name] {
 			logRet(strings.SplitN(a.name, ".", 2)[0], a)
